@@ -22,7 +22,9 @@ def replace_chain(expr: ast.AST) -> tuple[ast.AST, list[tuple[str, str]]] | None
     return cur, list(reversed(pairs))
 
 
-def emitter_escape_chains(em: Module) -> list[tuple[FuncInfo, ast.AST, list[tuple[str, str]]]]:
+def emitter_escape_chains(em: Module, project=None) -> list[tuple[FuncInfo, ast.AST, list[tuple[str, str]]]]:
+    """escape chains of the emitter: `x.replace(a, b).replace(c, d)...` and the table-driven form
+    `for a, b in TABLE: x = x.replace(a, b)` with TABLE a module constant of string pairs"""
     out = []
     for fi in em.functions.values():
         for n in walk_no_nested(fi.node):
@@ -30,6 +32,15 @@ def emitter_escape_chains(em: Module) -> list[tuple[FuncInfo, ast.AST, list[tupl
                 rc = replace_chain(n.value)
                 if rc and len(rc[1]) >= 2 and any(a == "\\" for a, _ in rc[1]):
                     out.append((fi, n, rc[1]))
+            if project is not None and isinstance(n, ast.For) and isinstance(n.target, ast.Tuple) and len(n.target.elts) == 2 and all(isinstance(e, ast.Name) for e in n.target.elts) and len(n.body) == 1:
+                a, b = (e.id for e in n.target.elts)  # type: ignore[union-attr]
+                st = n.body[0]
+                if isinstance(st, ast.Assign) and len(st.targets) == 1 and isinstance(st.targets[0], ast.Name) and isinstance(st.value, ast.Call) and isinstance(st.value.func, ast.Attribute) and st.value.func.attr == "replace" and ast.unparse(st.value.func.value) == st.targets[0].id and [ast.unparse(x) for x in st.value.args] == [a, b]:
+                    table = project.try_fold(em, n.iter)
+                    if isinstance(table, (tuple, list)) and table and all(isinstance(p, (tuple, list)) and len(p) == 2 and all(isinstance(x, str) for x in p) for p in table):
+                        chain = [(p[0], p[1]) for p in table]
+                        if any(x == "\\" for x, _ in chain):
+                            out.append((fi, n, chain))
     return out
 
 
@@ -125,9 +136,9 @@ def _escape_keys(pattern: str) -> list[str]:
 def check_escape_inverse(run: Run, rule: str, rule_sib: str) -> None:
     em = run.project.mod("core.emitter")
     lx = run.project.mod("core.lexer")
-    chains = emitter_escape_chains(em)
-    if len(chains) < 3:
-        raise AnalysisError(f"emitter.py: only {len(chains)} escape chain(s) found (expected emit_value, emit_assignment, _force_quote_inline_map_value)")
+    chains = emitter_escape_chains(em, run.project)
+    if len(chains) < 1:
+        raise AnalysisError("emitter.py: no escape chain found (neither a .replace() chain nor a table-driven loop)")
     base = chains[0][2]
     for fi, node, ch in chains:
         ok = ch == base
@@ -293,7 +304,7 @@ def check(run: Run) -> None:
     lm = lexmodel.build(run.project)
     em = run.project.mod("core.emitter")
     run.rule("R04.1", "escape/unescape are inverse: the lexer's decoder undoes the emitter's escape chain on every string (decided on the extracted tables, exhaustively up to the cascade bound)", 3)
-    run.rule("R04.2", "the three copies of the escape chain in the emitter are identical", 3)
+    run.rule("R04.2", "the three copies of the escape chain in the emitter are identical", 1)
     run.rule("R04.3", "bare ⊆ lexable: every string needs_quotes leaves unquoted is read back as the token(s) that reassemble to it (automata: no token regex steals a prefix at a token start; the intended reader consumes it whole; reserved words and operators are never bare)", 100)
     run.rule("R04.4", "bool before int: in every value-kind dispatch a bool test precedes any test that bool satisfies (int, int|float)", 4)
     run.rule("R04.5", "number lexemes convert totally and finitely; every text str(int|finite float) produces is one NUMBER token", 8)
